@@ -1,13 +1,13 @@
 #!/bin/bash
-# usage: sweep_shard.sh <k> <n>   -- for `vp run --with-repo`: builds this snapshot of /verif against the repository snapshot
+# usage: sweep_shard.sh <k> <n> [<egrep pattern on ids>]   -- for `vp run --with-repo`: builds this snapshot of /verif against the repository snapshot
 # ($VP_RUN_REPO) and sweeps every n-th archived seeded change / reverse fix, starting with the k-th, on that snapshot.
 # Several shards run side by side without touching /repo.  Prints "<id> CAUGHT|MISSED <violation lines>" per change.
 set -u
-K="$1"; N="$2"
+K="$1"; N="$2"; PAT="${3:-.}"
 cd "$(dirname "$0")/.." || exit 2
 export VERIF_REPO="${VP_RUN_REPO:-/repo}"
 ./setup.sh > setup.log 2>&1 || { echo "setup failed"; tail -5 setup.log; exit 2; }
-ids=$( (ls -d seeded/C*-* | xargs -n1 basename; ls regress/*.diff | xargs -n1 basename | sed 's/\.diff$//') | sort | awk -v k="$K" -v n="$N" 'NR % n == k')
+ids=$( (ls -d seeded/C*-* | xargs -n1 basename; ls regress/*.diff | xargs -n1 basename | sed 's/\.diff$//') | sort | grep -E "$PAT" | awk -v k="$K" -v n="$N" 'NR % n == k')
 echo "shard $K/$N on $VERIF_REPO: $(echo $ids | wc -w) changes"
 harness/seed_sweep.py $ids 2>&1 | grep -v 'conda\|WARNING'
 git -C "$VERIF_REPO" status --short | head -3
